@@ -118,6 +118,11 @@ def discharge_all(run, obs, timeout_ms=20000, procs=None, on_sat=None):
             out.append((o, status, detail)); continue
         if status == "unsat":
             run.add(name, "discharged", backend, dt, clause=f"{o.fn}::{o.clause}")
+        elif status == "sat" and o.clause.startswith("cover:"):
+            # a coverage probe of the contract itself (every kind of iteration / path was seen) fails: the sidecar contract does not
+            # fit the code of this tree -> undecided; it says nothing about the property
+            run.add(name, "undecided", backend, dt, clause=f"{o.fn}::{o.clause}", detail="the contract's own coverage probe failed: contract does not fit this tree")
+            out.append((o, "unknown", detail)); continue
         elif status == "sat":
             run.add(name, "failed", backend, dt, clause=f"{o.fn}::{o.clause}")
             confirmed, replay = (False, {})
